@@ -96,7 +96,12 @@ def make_full_workspace(d, user_dict=True, second_prism=False):
         s2 = s2.replace("translator:\n  dictionary: vs_pin", "translator:\n  dictionary: vs_pin\n  prism: vs_full2", 1)
         assert "prism: vs_full2" in s2
         open(os.path.join(d, "vs_full2.schema.yaml"), "w", encoding="utf-8").write(s2)
-        default = default.replace("  - schema: vs_script\n", "  - schema: vs_script\n  - schema: vs_full2\n")
+        default = default.replace("  - schema: vs_script\n", "  - schema: vs_full2\n  - schema: vs_script\n")
+        # the `select: .next` hotkey applies the second entry of the switcher's schema list; with the list in its fixed
+        # order that entry depends on the session's own schema only (by default it is the persisted recency order, which
+        # every session's schema change updates)
+        default = default.replace("switcher:\n", "switcher:\n  fix_schema_list_order: true\n", 1)
+        assert "fix_schema_list_order" in default
         open(os.path.join(d, "default.yaml"), "w", encoding="utf-8").write(default)
     open(os.path.join(d, "vs_script.schema.yaml"), "w").write(sc.schema_yaml("vs_script", sc.SCHEMAS["vs_script"]))
     with open(os.path.join(d, "vs_pin.dict.yaml"), "w", encoding="utf-8") as f:
